@@ -194,6 +194,9 @@ def macro_lab_c19(pid, tier, seed, rundir, log):
                 vn = _ident(rng)
             seen.add(vn)
             disc = None
+            if kind == "spl_hash" and j == 0 and (k == 1 or rng.random() < 0.4):
+                # an explicit discriminant on the first variant of a hashed enum: the hashed start code replaces it
+                disc = rng.choice([0, 5, 123456])
             if kind in ("spl", "derive", "spl_crate") and rng.random() < 0.3 and not (j == 0 and kind == "spl_hash"):
                 nxt = nxt + rng.choice([0, 1, 7, 1000, 4000000000 - nxt if nxt < 3000000000 else 1])
                 disc = nxt
@@ -264,8 +267,10 @@ def macro_lab_c19(pid, tier, seed, rundir, log):
     # oracle: expected values straight from the description
     for k, (kind, name, start, vs) in enumerate(items):
         codes, nxt = [], (start if start is not None else 0)
-        for (vn, disc, msg) in vs:
+        for j, (vn, disc, msg) in enumerate(vs):
             c = disc if disc is not None else nxt
+            if kind == "spl_hash" and j == 0:
+                c = start          # the hashed start code is the first variant's code, whatever it declared
             codes.append(c)
             nxt = c + 1
         msgs = [(m if m is not None else "Unknown custom program error") for _, _, m in vs]
